@@ -343,6 +343,11 @@ def _set_unaligned(chk, folder, ff, f, iff):
         elif isinstance(a, ast.BinOp) and isinstance(a.op, ast.BitAnd) and isinstance(a.left, ast.BinOp) and isinstance(a.left.op, ast.LShift) and isinstance(b, ast.BinOp):
             ins, clr = a, b
     if ins is None:
+        for a, b in ((X.left, X.right), (X.right, X.left)):
+            if isinstance(a, ast.BinOp) and isinstance(a.op, ast.LShift) and "from_bytes" in src(b) and not any(isinstance(x, ast.Invert) for x in ast.walk(b)):
+                chk.bad("R3", f"{site} | old bits cleared with the complement of the field mask", f.loc(st),
+                        f"the new value is OR-ed onto `{src(b)[:70]}` without clearing the field first: bits that were 1 stay 1")
+                return
         chk.unk("R3", f"{site} | insertion", f.loc(st), f"`{src(X)[:100]}` is not <value << shift> | <cleared frame>")
         return
     mask_c = ff.canon(MASK_FORMS[0])
